@@ -1,5 +1,4 @@
-import CnbVerif.Lemmas.EnvDir4
-import CnbVerif.Spec.EnvLayout
+import CnbVerif.Lemmas.EnvLayoutSpec
 /-!
 # C03 — layer env is persisted in the spec's on-disk layout and reads back unchanged
 
@@ -24,6 +23,19 @@ theorem layout (le : LayerEnv) (layer : Dir) (hl : LayerOk layer) (hp : ProcOk l
       l'.get nEnvLaunch = launchNode (procDirs le.process ++ le.launch.map Entry.fileOf) :=
   let ⟨l', h, g1, g2, g3, _⟩ := writeToLayerDir_spec le layer hl hp
   ⟨l', h, g1, g2, g3⟩
+
+/-- **M1 (layout = the spec's files, as sets).** For every environment built through the public API (hypotheses as in
+`api_environments_are_ok`), the regular files found after the write in `env`, `env.build`, `env.launch` and in each
+`env.launch/<process>` are exactly those the CNB layout prescribes: a file `NAME.<suffix>` holding the raw value of the
+last insert for (scope, behaviour, NAME) — nothing more, nothing less (`SpecFileIn`, `Spec.lookIns`). -/
+theorem layout_is_spec_files (ins : List Ins) (layer : Dir) (hl : LayerOk layer) (hok : (buildEnv ins).Ok) :
+    ∃ l', writeToLayerDir (buildEnv ins) layer = some l' ∧
+      (∀ f c, (∃ es, l'.get nEnv = some (.dir es) ∧ (f, Node.file c) ∈ es) ↔ SpecFileIn ins .all f c) ∧
+      (∀ f c, (∃ es, l'.get nEnvBuild = some (.dir es) ∧ (f, Node.file c) ∈ es) ↔ SpecFileIn ins .build f c) ∧
+      (∀ f c, (∃ es, l'.get nEnvLaunch = some (.dir es) ∧ (f, Node.file c) ∈ es) ↔ SpecFileIn ins .launch f c) ∧
+      (∀ p f c, (∃ es ps, l'.get nEnvLaunch = some (.dir es) ∧ (p, Node.dir ps) ∈ es ∧ (f, Node.file c) ∈ ps) ↔
+        SpecFileIn ins (.process p) f c) :=
+  layout_spec_files ins layer hl hok
 
 /-- **M1b.** The generated writer suffixes are the spec's: file name = `NAME` ++ `.` ++ suffix name. -/
 theorem file_names_are_spec_names (e : Entry) :
